@@ -1,0 +1,65 @@
+//go:build verif
+
+// Contracts for package server, checked by /verif/govc (comment-only file).
+package server
+
+// Ghost trace `io` of a ClientIO: one record per observable step, in program order.
+//   (1, client, seq)        the command is recorded as executed (lastExecutedSeqNum updated)
+//   (2)                     the command's data is handed to the application (hash.Write)
+//   (3, client, seq, ok)    an outcome is delivered to a waiting client (ok = 1: success)
+// iowf is the invariant over the whole history of one ClientIO:
+//   [recorded]  every executed command is at or below its client's recorded maximum
+//   [once]      executed commands of one client have strictly increasing sequence numbers,
+//               so no (client, seq) is executed twice
+//   [applied]   the application sees exactly the executed commands: each (1) is followed by
+//               one (2) and each (2) follows a (1)
+//   [success]   a success outcome for (client, seq) comes directly after that command was
+//               executed and applied
+//@ pred iorec(srv *ClientIO) = forall k int :: {traceat(io, 0, k)} 0 <= k && k < tracelen(io) && traceat(io, 0, k) == 1 ==> 0 <= traceat(io, 1, k) && traceat(io, 1, k) < 4294967296 && has(srv.lastExecutedSeqNum, uint32(traceat(io, 1, k))) && traceat(io, 2, k) <= srv.lastExecutedSeqNum[uint32(traceat(io, 1, k))] && k + 1 < tracelen(io) && traceat(io, 0, k + 1) == 2
+//@ pred ioonce(srv *ClientIO) = forall i int, j int :: {traceat(io, 0, i), traceat(io, 0, j)} 0 <= i && i < j && j < tracelen(io) && traceat(io, 0, i) == 1 && traceat(io, 0, j) == 1 && traceat(io, 1, i) == traceat(io, 1, j) ==> traceat(io, 2, i) < traceat(io, 2, j)
+//@ pred ioapp(srv *ClientIO) = forall k int :: {traceat(io, 0, k)} 0 <= k && k < tracelen(io) && traceat(io, 0, k) == 2 ==> k >= 1 && traceat(io, 0, k - 1) == 1
+//@ pred iosucc(srv *ClientIO) = forall k int :: {traceat(io, 0, k)} 0 <= k && k < tracelen(io) && traceat(io, 0, k) == 3 && traceat(io, 3, k) == 1 ==> k >= 2 && traceat(io, 0, k - 1) == 2 && traceat(io, 0, k - 2) == 1 && traceat(io, 1, k - 2) == traceat(io, 1, k) && traceat(io, 2, k - 2) == traceat(io, 2, k)
+//@ pred iowf(srv *ClientIO) = iorec(srv) && ioonce(srv) && ioapp(srv) && iosucc(srv)
+
+//@ func (*ClientIO).isDuplicate property C06
+//@   requires cmd != nil
+//@   ensures [def] result == (has(srv.lastExecutedSeqNum, cmd.ClientID) && srv.lastExecutedSeqNum[cmd.ClientID] >= cmd.SequenceNumber)
+
+// completeCommand: a waiting client gets exactly one outcome and stops waiting; nobody else
+// is told anything.
+//@ func (*ClientIO).completeCommand property C06
+//@   modifies srv.awaitingCmds[*], trace(io)
+//@   ghost at send :: emit io(3, id.ClientID, id.SequenceNumber, op1 == nil)
+//@   ensures [one-outcome] old(has(srv.awaitingCmds, id)) ? (tracelen(io) == old(tracelen(io)) + 1 && traceat(io, 0, old(tracelen(io))) == 3 && traceat(io, 1, old(tracelen(io))) == id.ClientID && traceat(io, 2, old(tracelen(io))) == id.SequenceNumber && traceat(io, 3, old(tracelen(io))) == (err == nil ? 1 : 0)) : tracelen(io) == old(tracelen(io))
+//@   ensures [stops-waiting] !has(srv.awaitingCmds, id)
+//@   ensures [history-kept] forall k int :: {traceat(io, 0, k)} 0 <= k && k < old(tracelen(io)) ==> traceat(io, 0, k) == old(traceat(io, 0, k)) && traceat(io, 1, k) == old(traceat(io, 1, k)) && traceat(io, 2, k) == old(traceat(io, 2, k)) && traceat(io, 3, k) == old(traceat(io, 3, k))
+
+// Exec keeps the history invariant: commands are executed at most once, in batch order, and
+// success is reported only for the command just executed.
+//@ func (*ClientIO).Exec property C06
+//@   requires srv.lastExecutedSeqNum != nil && srv.hash != nil && srv.logger != nil
+//@   requires batch != nil ==> (forall i int :: {batch.Commands[i]} 0 <= i && i < len(batch.Commands) ==> batch.Commands[i] != nil)
+//@   requires iowf(srv)
+//@   modifies srv.lastExecutedSeqNum[*], srv.awaitingCmds[*], srv.cmdCount, trace(io)
+//@   ghost at mapupdate lastExecutedSeqNum :: emit io(1, op0, op1)
+//@   ghost at call Write :: emit io(2)
+//@   loop 0 invariant [recorded] iorec(srv)
+//@   loop 0 invariant [once] ioonce(srv)
+//@   loop 0 invariant [applied] ioapp(srv)
+//@   loop 0 invariant [success] iosucc(srv)
+//@   loop 0 invariant [grows] tracelen(io) >= old(tracelen(io))
+//@   ensures [history] iowf(srv)
+
+// Abort never reports success and executes nothing.
+//@ func (*ClientIO).Abort property C06
+//@   requires batch != nil ==> (forall i int :: {batch.Commands[i]} 0 <= i && i < len(batch.Commands) ==> batch.Commands[i] != nil)
+//@   requires iowf(srv)
+//@   modifies srv.awaitingCmds[*], trace(io)
+//@   loop 0 invariant [recorded] iorec(srv)
+//@   loop 0 invariant [once] ioonce(srv)
+//@   loop 0 invariant [applied] ioapp(srv)
+//@   loop 0 invariant [success] iosucc(srv)
+//@   loop 0 invariant [no-exec] forall k int :: {traceat(io, 0, k)} old(tracelen(io)) <= k && k < tracelen(io) ==> traceat(io, 0, k) == 3 && traceat(io, 3, k) == 0
+//@   loop 0 invariant [grows] tracelen(io) >= old(tracelen(io))
+//@   ensures [history] iowf(srv)
+//@   ensures [no-exec] forall k int :: {traceat(io, 0, k)} old(tracelen(io)) <= k && k < tracelen(io) ==> traceat(io, 0, k) == 3 && traceat(io, 3, k) == 0
